@@ -408,7 +408,11 @@ class DbLeg(object):
                 s = draw(st.integers(1, 60))
                 specs.append({"seqid": draw(st.sampled_from(["chr1", "chr1", "chr2"])), "ft": draw(st.sampled_from(["exon", "exon", "CDS"])),
                               "strand": draw(st.sampled_from(["+", "+", "-"])), "start": s, "end": s + draw(st.integers(0, 15))})
-            return {"specs": specs, "exclude": draw(st.booleans()), "parent_strand": draw(st.sampled_from(["+", "-"])),
+            off = draw(st.sampled_from([0, 0, 131072 - 20, 131072 - 5]))  # runs may grow across a 128 kb bin edge
+            for sp in specs:
+                sp["start"] += off
+                sp["end"] += off
+            return {"specs": specs, "exclude": draw(st.booleans()), "parent_strand": draw(st.sampled_from(["+", "-"])), "offset": off,
                     "empty_groups": draw(st.sampled_from([False, False, True])), "file_db": draw(st.booleans())}
 
         return case()
@@ -425,7 +429,8 @@ class DbLeg(object):
         specs = case["specs"]
         # children_bp: one transcript with the chr1 / parent-strand exons as children
         kids = [s for s in specs if s["seqid"] == "chr1" and s["strand"] == case["parent_strand"] and s["ft"] == "exon"]
-        lines = ["chr1\tsrc\tmRNA\t1\t100\t.\t%s\t.\tID=tx" % case["parent_strand"]]
+        off = case.get("offset", 0)
+        lines = ["chr1\tsrc\tmRNA\t%d\t%d\t.\t%s\t.\tID=tx" % (1 + off, 100 + off, case["parent_strand"])]
         for i, s in enumerate(specs):
             par = ";Parent=tx" if s in kids else ""
             lines.append("\t".join([s["seqid"], "src", s["ft"], str(s["start"]), str(s["end"]), ".", s["strand"], ".", "ID=f%d%s" % (i, par)]))
@@ -447,7 +452,7 @@ class DbLeg(object):
             return Failure("children_bp modified the database", sig={"kind": "db-modified"})
         # merge_all over the non-transcript features
         rows = [dict(s, id="f%d" % i) for i, s in enumerate(specs)]
-        rows.append({"seqid": "chr1", "ft": "mRNA", "strand": case["parent_strand"], "start": 1, "end": 100, "id": "tx"})
+        rows.append({"seqid": "chr1", "ft": "mRNA", "strand": case["parent_strand"], "start": 1 + off, "end": 100 + off, "id": "tx"})
         rows.sort(key=lambda s: (s["seqid"].encode(), s["ft"].encode(), s["strand"].encode(), s["start"]))
         ref = ref_merge(rows, CRITERIA["default"][1])
         # rows with equal sort keys may come in either order: only assert when the run structure does not depend on it
@@ -478,12 +483,23 @@ class DbLeg(object):
                            sig={"kind": "merge_all-rows"})
         if len(set(r["id"] for r in new_rows)) != len(new_rows):
             return Failure("merge_all: new features share ids", sig={"kind": "ids"})
+        import gffutils.bins as _bins
+
+        for r in new_rows:
+            if r["bin"] != _bins.bins(r["cols"][3], r["cols"][4]):
+                return Failure("merge_all stored %r spanning %d..%d with bin %r, bins() gives %r"
+                               % (r["id"], r["cols"][3], r["cols"][4], r["bin"], _bins.bins(r["cols"][3], r["cols"][4])),
+                               sig={"kind": "merge_all-bin"})
         member_ids = set(rows[m]["id"] for members, _ in multi for m in members)
         kept = set(r["id"] for r in after["features"]) & old_ids
         if case["exclude"]:
             if kept != old_ids - member_ids:
                 return Failure("merge_all(exclude_components=True): remaining old features %r, expected %r"
                                % (sorted(kept), sorted(old_ids - member_ids)), sig={"kind": "merge_all-exclude"})
+            stale = [tuple(r) for r in after["relations"] if r[0] in member_ids or r[1] in member_ids]
+            if stale:
+                return Failure("merge_all(exclude_components=True) deleted the members but left relations naming them: %r" % stale[:4],
+                               sig={"kind": "merge_all-exclude-relations"})
         else:
             if kept != old_ids:
                 return Failure("merge_all(exclude_components=False) removed features %r" % sorted(old_ids - kept), sig={"kind": "merge_all-keep"})
